@@ -352,6 +352,20 @@ func runC03(c *Check) error {
 			// after -> it is a property name
 			add("H_C03_Keyword", "keywords", ver, []string{tC("<?php $a->"), "K" + kw, tC(" ;")},
 				map[string]interface{}{"at": 10, "n": len(kw), "tok": ids.id("T_STRING"), "exact": 1, "what": "keyword " + kw + " after ->"}, "lexed")
+			// ... also when white space or a line break stands between -> and the name
+			for _, ws := range [][]string{{tH('s', 1, 1)}, {tC("\n")}, {tC("\r\n")}, {tH('s', 1, 1), tC("\n"), tH('s', 1, 1)}} {
+				n := 0
+				for _, seg := range ws {
+					if seg[0] == 'H' {
+						n++
+					} else {
+						n += len(seg) - 1
+					}
+				}
+				t := append(append([]string{tC("<?php $a->")}, ws...), "K"+kw, tC(" ;"))
+				add("H_C03_Keyword", "keywords", ver, t,
+					map[string]interface{}{"at": 10 + n, "n": len(kw), "tok": ids.id("T_STRING"), "exact": 1, "what": "keyword " + kw + " after -> and white space"}, "lexed")
+			}
 		}
 		var casts []string
 		for k := range c03Casts {
@@ -518,7 +532,7 @@ func runC03(c *Check) error {
 	c.Extra["baseline_accepted_programs"] = nacc
 	c.Extra["version_gates"] = len(c03Gates)
 	c.Bounds = append(c.Bounds,
-		bound("keywords: %d keywords and %d cast spellings with every letter in either case (2^len spellings on one path each), alone, followed by one identifier byte, after '->'; casts with 0..2 blanks inside the parentheses; 'yield from' with 1..2 blanks", len(kws), len(c03Casts)),
+		bound("keywords: %d keywords and %d cast spellings with every letter in either case (2^len spellings on one path each), alone, followed by one identifier byte, after '->', after '->' and white space / a line break; casts with 0..2 blanks inside the parentheses; 'yield from' with 1..2 blanks", len(kws), len(c03Casts)),
 		bound("operator grouping: every ordered pair of the %d binary/assignment operators, each with the conditional operator (4 placements), instanceof (2), and 13 prefix operators (2 placements), nested and short conditionals%s; expected tree from a reference precedence-climbing parser", len(c03Binary), map[bool]string{true: ", triples over one representative per precedence level", false: ""}[thorough]),
 		"dangling else: if-chains of depth 2..4 with 0..depth else clauses, each optionally preceded by an elseif",
 		"acceptance: every program of the committed corpus (test snippets and grammar sentences) that the baseline accepts under 7.4 / 7.2 / 5.6",
